@@ -5,6 +5,7 @@ import (
 
 	"github.com/ah-naf/borno/token"
 	"github.com/ah-naf/borno/utils"
+	"github.com/ah-naf/borno/vhook"
 )
 
 type Environment struct {
@@ -22,12 +23,14 @@ func NewEnvironmentWithParent(parent *Environment) *Environment {
 
 // Define a new variable in environment
 func (e *Environment) Define(name string, value interface{}) {
+	vhook.EnvDefine(e, e.Parent, name)
 	e.Values[name] = value
 }
 
 // Get the value of a variable, checking parent scopes if necessary
 func (e *Environment) Get(name string) (interface{}, error) {
 	if value, exists := e.Values[name]; exists {
+		vhook.EnvHit("get", e, e.Parent, name)
 		return value, nil
 	}
 
@@ -35,6 +38,7 @@ func (e *Environment) Get(name string) (interface{}, error) {
 		return e.Parent.Get(name)
 	}
 
+	vhook.EnvMiss("get", e, name)
 	return nil, fmt.Errorf("undefined variable '%s'", name)
 }
 
@@ -48,6 +52,7 @@ func (e *Environment) GetInCurrentScope(name string) (interface{}, error) {
 
 func (e *Environment) Assign(name token.Token, value interface{}) {
 	if _, exists := e.Values[name.Lexeme]; exists {
+		vhook.EnvHit("assign", e, e.Parent, name.Lexeme)
 		e.Values[name.Lexeme] = value
 		return
 	}
@@ -57,5 +62,6 @@ func (e *Environment) Assign(name token.Token, value interface{}) {
 		return
 	}
 
+	vhook.EnvMiss("assign", e, name.Lexeme)
 	utils.RuntimeError(name, "Undefined variable '"+name.Lexeme+"'.")
 }
